@@ -14,7 +14,7 @@ import (
 // canonical signature text (sigString) so that receiver kind and type
 // parameters take part in the comparison.
 type obsT struct {
-	K, Key, Sig      string
+	K, Key, Sig     string
 	Body, Init, Ord int
 }
 
